@@ -43,6 +43,7 @@ __thread int self_id = -1;
 struct Start { void *(*f)(void *); void *a; int id; }; Start starts[SCHED_MAXT];
 
 long vclock_jumps = 0;   // virtual clock: constant, except that it jumps one hour ahead each time a timed wait expires
+int spurious_left = 0;
 void fwait(int *f) { while (__atomic_load_n(f, __ATOMIC_ACQUIRE) == 0) syscall(SYS_futex, f, FUTEX_WAIT, 0, 0, 0, 0); __atomic_store_n(f, 0, __ATOMIC_RELEASE); }
 void fwake(int *f) { __atomic_store_n(f, 1, __ATOMIC_RELEASE); syscall(SYS_futex, f, FUTEX_WAKE, 1, 0, 0, 0); }
 
@@ -103,10 +104,19 @@ void schedule() {
     for (int t = 0; t < nth; t++) if (t != cur && enabled(t)) opts[n++] = (int16_t)t;
     int nthr = n;
     for (int t = 0; t < nth; t++) if (has_timeout(t)) opts[n++] = (int16_t)(100 + t);
+    // spurious wake-up of a condition waiter (SCHED_SPURIOUS=<budget per execution>, default 0 = off): never the default, never
+    // offered when nothing else could happen (that state stays a deadlock), always costs one deviation
+    if (n > 0 && spurious_left > 0) for (int t = 0; t < nth && n < SCHED_MAXOPT; t++) if (th[t].st == B_COND) opts[n++] = (int16_t)(300 + t);
     if (n > SCHED_MAXOPT) n = SCHED_MAXOPT;
     if (n == 0) { bool all = true; for (int t = 0; t < nth; t++) if (th[t].st != FIN) all = false; finish(all ? SCHED_END_OK : SCHED_END_DEADLOCK, all ? "all threads finished" : "DEADLOCK: no thread enabled"); }
     int pick = from_prefix(opts, n);
     record(0, curen, nthr, opts, n, pick);
+    if (pick >= 300) {           // spurious wake-up: thread t leaves the wait without signal or timeout and re-contends for the mutex
+      int t = pick - 300; Th &x = th[t]; spurious_left--;
+      for (int i = 0; i < nwait; i++) if (waiters[i].t == t) { waiters[i] = waiters[--nwait]; break; }
+      x.st = B_MUTEX; x.obj = x.relock;
+      continue;
+    }
     if (pick >= 100) {           // the timed wait of thread t expires: virtual time jumps past every pending deadline
       int t = pick - 100; Th &x = th[t]; x.timedout = true; vclock_jumps++;
       if (x.st == B_COND) { for (int i = 0; i < nwait; i++) if (waiters[i].t == t) { waiters[i] = waiters[--nwait]; break; } x.st = B_MUTEX; x.obj = x.relock; }
@@ -147,7 +157,9 @@ template <class F> F real(const char *name) { return (F)dlsym(RTLD_NEXT, name); 
 extern "C" {
 void sched_begin(sched_trace *t, const int16_t *pfx, int npfx) {
   tr = t; prefix = pfx; nprefix = npfx; step = 0; tr->npoints = 0; tr->end = SCHED_END_NONE; tr->notes_len = 0; tr->end_msg[0] = 0;
-  nth = 1; cur = 0; self_id = 0; th[0].st = RUN; th[0].fut = 0; nmu = 0; nwait = 0; vclock_jumps = 0; active = true;
+  nth = 1; cur = 0; self_id = 0; th[0].st = RUN; th[0].fut = 0; nmu = 0; nwait = 0; vclock_jumps = 0;
+  { const char *e = getenv("SCHED_SPURIOUS"); spurious_left = e ? atoi(e) : 0; }
+  active = true;
 }
 void sched_end(void) { th[0].st = FIN; active = false; finish(SCHED_END_OK, "ok"); }
 void sched_on_deadlock(void (*cb)(void)) { on_deadlock = cb; }
